@@ -755,3 +755,5 @@ mod tests {
         assert!(multiaddr_matches_peer_id(&addr_without_peer_id, &peer_id));
     }
 }
+
+#[cfg(libp2p_verif)] #[path = "verif_c46_filter.rs"] pub mod verif_c46_filter;
